@@ -62,7 +62,7 @@ Theorem c16_leaf_paths_resolve : forall env fo ko, wf_envb env = true ->
   forall o, g_shadow o = false -> g_partial o = false -> g_wild o = false ->
   forall S t pfx l p v,
   gn_treeb env fo ko S t = true -> leaves env ko false S t pfx = Ok l -> In (p, v) l ->
-  get_node env ko o S t (skipn (length pfx) p)
+  get_node env fo ko o S t (skipn (length pfx) p)
     = Ok [{| gn_path := skipn (length pfx) p; gn_data := Some (lval_tree v) |}].
 Proof. exact leaf_paths_resolve. Qed.
 Print Assumptions c16_leaf_paths_resolve.
@@ -129,7 +129,7 @@ Proof. vm_compute. repeat split; reflexivity. Qed.
 Print Assumptions c16_refuted_key_leaf_overwrite.
 
 Theorem c16_refuted_key_leaf_deleted :
-  match delete_node_st ex_env ex_ko false ex_sch ex_t_a (ex_entry_a ++ [mk_elem [107]]) with
+  match delete_node_st ex_env ex_fo ex_ko false ex_sch ex_t_a (ex_entry_a ++ [mk_elem [107]]) with
   | (t', r) => r = Ok tt /\ ex_entry_of t' = Some [([86], TLeaf (VStr [120]))]
   end.
 Proof. vm_compute. repeat split; reflexivity. Qed.
@@ -191,7 +191,7 @@ Example c16_paths_resolve_computes :
   match leaves ex_env ex_ko false ex_sch ex_tree ex_pfx with
   | Ok l =>
       forallb (fun pv =>
-        match get_node ex_env ex_ko {| g_partial := false; g_wild := false; g_tolerate_nil := false; g_shadow := false |}
+        match get_node ex_env ex_fo ex_ko {| g_partial := false; g_wild := false; g_tolerate_nil := false; g_shadow := false |}
                        ex_sch ex_tree (skipn (length ex_pfx) (fst pv)) with
         | Ok [n] => otree_eqb (gn_data n) (Some (lval_tree (snd pv)))
         | _ => false
